@@ -3,7 +3,7 @@
 cd "$(dirname "$0")"
 rc=0
 for p in $(python3 -c "import json;print(' '.join(c['property_id'] for c in json.load(open('MANIFEST.json'))['checks']))"); do
-  out=$(bin/govc check -prop $p -tier ${1:-quick} 2>&1); code=$?
+  out=$(bin/govc check -prop $p -tier ${1:-quick} $2 2>&1); code=$?
   echo "$out" | grep -E "^property|^VIOLATION" | cut -c1-260
   [ $code -ne 0 ] && { echo "EXIT $code for $p"; rc=1; }
 done
